@@ -114,6 +114,7 @@ type twEngine struct {
 	posIds   []uint64   // CL positions of this history
 	logCache map[string]*big.Float
 	prunedAt time.Time // pruning state LastKeptTime already reported to the model
+	hugeExp  int       // decimal exponent of the reserves of a huge-reserves pool
 }
 
 // finalize ends the current block through the real ABCI flow and opens the next one at `next`.
@@ -372,6 +373,14 @@ func (e *twEngine) createPool() bool {
 				w = 1
 			case 3:
 				w = int64(1 + r.Intn(1<<20-1))
+			case 4: // huge reserves (2^63 .. 2^150), prices still moderate
+				if r.Intn(2) == 0 {
+					if i == 0 {
+						e.o.Count("class.reserves.huge")
+						e.hugeExp = []int{19, 20, 27, 38, 39, 45}[r.Intn(6)]
+					}
+					amt = e.randMag(e.hugeExp, e.hugeExp+2)
+				}
 			}
 			assets = append(assets, balancer.PoolAsset{Weight: osmomath.NewInt(w), Token: coin(e.denoms[i], amt)})
 		}
@@ -446,6 +455,10 @@ func (e *twEngine) action() {
 			if r.Intn(8) == 0 { // price below the CL spot price floor of 10^-12 for one direction
 				a0 = e.randMag(16, 18)
 				a1 = big.NewInt(int64(100 + r.Intn(900)))
+			} else if r.Intn(8) == 0 { // huge position (amounts past 2^64 / 2^100)
+				x := []int{20, 24, 30}[r.Intn(3)]
+				a0, a1 = e.randMag(x, x+3), e.randMag(x, x+3)
+				e.o.Count("class.cl-position.huge")
 			}
 			pool, err := e.h.App.ConcentratedLiquidityKeeper.GetConcentratedPoolById(e.h.Ctx, e.poolId)
 			if err != nil {
@@ -574,8 +587,17 @@ func (e *twEngine) randDt() time.Duration {
 	if d > 0 && r.Intn(5) == 0 {
 		d += time.Duration(r.Intn(1000000)) // nanosecond part
 	}
+	if r.Intn(40) == 0 { // long gaps: the accumulators grow by price x up to 2^40 ms in one step
+		long := []time.Duration{24 * time.Hour, 30 * 24 * time.Hour, 365 * 24 * time.Hour, 30 * 365 * 24 * time.Hour}[r.Intn(4)] + d
+		if e.h.Ctx.BlockTime().Add(long).Before(twLatest) { // block times stay representable as int64 nanoseconds
+			e.o.Count(fmt.Sprintf("class.gap.%dd", int64(long/(24*time.Hour))))
+			return long
+		}
+	}
 	return d
 }
+
+var twLatest = time.Date(2200, 1, 1, 0, 0, 0, 0, time.UTC)
 
 func (e *twEngine) tracked() bool {
 	for _, id := range e.h.App.TwapKeeper.VerifGetChangedPools(e.h.Ctx) {
